@@ -247,6 +247,7 @@ package statedb
 //@ func (*writeTxnState).addDeleteTracker
 //@   property C02 C06
 //@   flag nosafety
+//@   flag assumepre=the-tracker-tree-of-a-table-entry-is-a-well-formed-part.Tree
 //@   flag noclose
 
 // ---------------------------------------------------------------------------
